@@ -65,6 +65,20 @@ let run line =
            let re = match Model.nlri_serialize (zi (int_of_string afi)) (zi (int_of_string safi)) v with Some b -> hex_of b | None -> "reser-err" in
            Printf.sprintf "ok %s %s %s %s %s %s" (zs n) (dash (fun l -> String.concat "," (List.map zs l)) v.Model.f_labels)
              (dash hex_of v.Model.f_rd) (zs v.Model.f_bits) (dash hex_of v.Model.f_oct) re)
+  | ["mpnlri"; afi; safi; ap; h] ->
+      (* the NLRI field of MP_UNREACH_NLRI: (id, NLRI) list *)
+      (match Model.family_kind (zi (int_of_string afi)) (zi (int_of_string safi)) with
+       | None -> "err family"
+       | Some (k, alen) ->
+           let d = of_hex h in
+           let rec nat_of n = if n <= 0 then Model.O else Model.S (nat_of (n - 1)) in
+           (match Model.dec_nlri_list (nat_of (List.length d + 1)) (ap = "1") k alen d with
+            | None -> "err"
+            | Some l ->
+                let dash f l = if l = [] then "-" else f l in
+                "ok " ^ String.concat " " (List.map (fun (id, v) ->
+                  Printf.sprintf "%s:%s:%s:%s:%s" (zs id) (dash (fun l -> String.concat "," (List.map zs l)) v.Model.f_labels)
+                    (dash hex_of v.Model.f_rd) (zs v.Model.f_bits) (dash hex_of v.Model.f_oct)) l)))
   | ["mknlri"; afi; safi; labels; rd; bits; addr] ->
       let a, s = zi (int_of_string afi), zi (int_of_string safi) in
       (match Model.family_kind a s with
